@@ -657,6 +657,10 @@ func (fr *Frame) instr(in ssa.Instruction) {
 	case *ssa.Store:
 		fr.store(fr.eval(i.Addr).(*VPtr), fr.eval(i.Val), i)
 	case *ssa.FieldAddr:
+		if nv, ok := fr.eval(i.X).(*VNative); ok {
+			fr.set(i, ex.nativeFieldAddr(fr, nv, i.Field, i))
+			break
+		}
 		p := fr.eval(i.X).(*VPtr)
 		if !p.Safe {
 			fr.panicIf(ts.Not(ex.ptrNonNil(p)), i, "nil pointer dereference")
